@@ -427,12 +427,16 @@ lcm_gcd_exact(To& to, const From1& x, const From2& y, Rounding_Dir dir) {
   To a_x;
   To a_y;
   Result r;
-  r = abs<From1_Policy, From1_Policy>(a_x, x, dir);
+  // Note: if an absolute value is not representable, neither is the lcm:
+  // the outcome of the overflowing abs() also describes the lcm.
+  r = abs<To_Policy, From1_Policy>(a_x, x, dir);
   if (r != V_EQ) {
+    to = a_x;
     return r;
   }
-  r = abs<From2_Policy, From2_Policy>(a_y, y, dir);
+  r = abs<To_Policy, From2_Policy>(a_y, y, dir);
   if (r != V_EQ) {
+    to = a_y;
     return r;
   }
   To gcd;
